@@ -1,5 +1,6 @@
 //! Shared by the harness binaries: argument parsing, result reporting, exit codes.
 pub mod report;
+pub mod watchdog;
 pub use report::Report;
 
 pub struct Args {
@@ -50,6 +51,7 @@ pub fn main_with(dispatch: impl FnOnce(&Args) -> Report + std::panic::UnwindSafe
             other => panic!("unknown argument {other}"),
         }
     }
+    watchdog::start(&args.id, &args.tier, &args.out, std::time::Duration::from_secs(20));
     let args_ref = std::panic::AssertUnwindSafe(&args);
     let r = std::panic::catch_unwind(move || dispatch(*args_ref));
     let rep: Report = match r {
